@@ -83,3 +83,16 @@ package ws
 //@   ensures !isnil(result) ==> !spawned("Listen$1")
 //@   ensures isnil(result) && !l.noserve ==> spawned("Listen$1") && l.running && len(l.pending) == 0
 //@   before call:NewListener#1 assert l.iswss && arg1 == tcfg && tcfg != nil
+
+// ---- round 7: the read limit is the stored receive limit ----
+//@ func (*dialer).Dial
+//@   ghost gerr = result1 at call:get#1
+//@   ghost gval = result0 at call:get#1
+//@   before call:get#1 assert arg0 == mangos.OptionMaxRecvSize
+//@   before call:SetReadLimit#1 assert isnil(gerr) && is_int(gval) ==> arg0 == int_of(gval)
+//@
+//@ func (*listener).handler
+//@   ghost gerr = result1 at call:get#1
+//@   ghost gval = result0 at call:get#1
+//@   before call:get#1 assert arg0 == mangos.OptionMaxRecvSize
+//@   before call:SetReadLimit#1 assert isnil(gerr) && is_int(gval) ==> arg0 == int_of(gval)
